@@ -22,7 +22,7 @@ Oracles
 Ties (a value within 1e-9 bins of a bin edge) are allowed to fall on either side; the choice
 must be consistent for a frame letter within one run.
 """
-import sys, os, math, itertools, subprocess, shutil, json
+import sys, os, math, itertools, subprocess, shutil, json, time
 
 sys.path.insert(0, os.path.join(os.environ.get("VERIF_ROOT", os.path.join(os.path.dirname(os.path.abspath(__file__)), "..")), "lib"))
 import pybsx
@@ -163,6 +163,8 @@ DC = [(-0.050, 0.075, 0.025), (0.050, -0.025, 0.100), (-0.075, 0.000, 0.050), (0
       (0.150, 0.250, 0.050), (0.200, -0.050, -0.150), (-0.200, -0.300, -0.100), (0.250, 0.300, 0.150),
       (-0.100, 0.050, 0.250)]
 SHIFT_C = (1.700, 1.900, 0.000)          # frame C straddles two box faces
+# frame B of T1/T3: the free B bead sits 0.0866 nm from C4, i.e. inside the first BB bin [0, 0.1)
+OVERRIDE = {("T1", "B", 6): (0.700, 0.350, 0.400), ("T3", "B", 6): (0.700, 0.350, 0.400)}
 BOX = {"A": (2.000, 2.000, 2.000), "B": (2.000, 2.200, 2.500), "C": (2.400, 2.100, 2.000)}
 # two atoms per CG bead for the mapped system: a = p - d, b = p + 3d  (weights 3:1 -> COM = p)
 DATOM = [(0.010, 0.020, -0.010), (-0.020, 0.010, 0.015), (0.015, -0.015, 0.020), (0.005, 0.025, 0.010),
@@ -179,6 +181,7 @@ def cg_frame(sysname, letter):
             q = tuple(p[k] + DB[i][k] for k in range(3))
         else:
             q = tuple(p[k] + DC[i][k] + SHIFT_C[k] for k in range(3))
+        q = OVERRIDE.get((sysname, letter, i), q)
         out.append(tuple(round(x, 3) for x in q))
     return out
 
@@ -510,6 +513,7 @@ class Model:
 
 CSG_STAT = None
 RUNNO = [0]
+LOADER_RETRIES = [0]
 
 
 def run_tool(sysname, sname, hist, bl, ff, nf, intra, imc, nt, keep=None):
@@ -546,11 +550,21 @@ def run_tool(sysname, sname, hist, bl, ff, nf, intra, imc, nt, keep=None):
     for fn, txt in inputs.items():
         with open(os.path.join(wd, fn), "w") as f:
             f.write(txt)
-    try:
-        p = subprocess.run(cmd, cwd=wd, stdout=subprocess.PIPE, stderr=subprocess.STDOUT, timeout=120)
-        rc, so = p.returncode, p.stdout.decode(errors="replace")
-    except subprocess.TimeoutExpired:
-        rc, so = "timeout", ""
+    for attempt in range(40):
+        try:
+            p = subprocess.run(cmd, cwd=wd, stdout=subprocess.PIPE, stderr=subprocess.STDOUT, timeout=120)
+            rc, so = p.returncode, p.stdout.decode(errors="replace")
+        except subprocess.TimeoutExpired:
+            rc, so = "timeout", ""
+        except OSError as e:           # executable being replaced by a concurrent rebuild
+            rc, so = 127, "error while loading shared libraries (exec failed: %s)" % e
+        # the dynamic loader failed before main() because another check is relinking the shared build
+        # (README: "one-off crash; just re-run"): wait for the linker, this is not behaviour of the tool
+        if rc == 127 and ("error while loading shared libraries" in so or "symbol lookup error" in so):
+            LOADER_RETRIES[0] += 1
+            time.sleep(3)
+            continue
+        break
     files = {}
     for fn in sorted(os.listdir(wd)):
         if fn not in inputs:
@@ -690,10 +704,12 @@ FRESH = {}
 
 
 def fresh_run(sysname, sname, frames, intra, imc):
+    """(result, 1 if the tool was really run else 0); memoised per process"""
     key = (sysname, sname, frames, intra, imc)
-    if key not in FRESH:
+    new = key not in FRESH
+    if new:
         FRESH[key] = run_tool(sysname, sname, frames, 0, 0, 0, intra, imc, 1)
-    return FRESH[key]
+    return FRESH[key], int(new)
 
 
 def evaluate(c, R=None, verbose=False):
@@ -731,8 +747,8 @@ def evaluate(c, R=None, verbose=False):
     if bl:
         for k in range(len(processed) // bl):
             fr = processed[k * bl:(k + 1) * bl]
-            rc2, files2, so2, _ = fresh_run(sysname, sname, fr, intra, imc)
-            nruns += 1; nframes += len(fr)
+            (rc2, files2, so2, _), new = fresh_run(sysname, sname, fr, intra, imc)
+            nruns += new; nframes += new * len(fr)
             if rc2 != 0:
                 fails.append(("tool-failed", "fresh run on %s failed: %s" % (fr, so2.strip()[-200:])))
                 continue
@@ -755,8 +771,11 @@ def evaluate(c, R=None, verbose=False):
                     R.count("block_files_equal_fresh_run")
             # .S/.cor exist only in block mode: compare with a fresh 1-block run of the same length
             if imc:
-                rc3, files3, so3, _ = run_tool(sysname, sname, fr, bl, 0, 0, intra, imc, 1)
-                nruns += 1; nframes += len(fr)
+                key3 = (sysname, sname, fr, intra, imc, bl)
+                if key3 not in FRESH:
+                    FRESH[key3] = run_tool(sysname, sname, fr, bl, 0, 0, intra, imc, 1)
+                    nruns += 1; nframes += len(fr)
+                rc3, files3, so3, _ = FRESH[key3]
                 for fn3, data3 in files3.items():
                     if is_block_extra(fn3):
                         fn1 = fn3.replace("_1.dist.new", suf)
@@ -796,7 +815,7 @@ def enumerate_cases(tier):
     hists = ["".join(h) for n in (1, 2, 3) for h in itertools.product("ABC", repeat=n)]     # 39, shortest first
     if tier == "quick":
         systems = ["T1", "T2", "T3"]
-        sets_of = {"T1": ["S1", "S3"], "T2": ["S5", "S4"], "T3": ["S2"]}
+        sets_of = {"T1": ["S1", "S4"], "T2": ["S5", "S3"], "T3": ["S2"]}
         bls = [0, 1, 2]
         sels = [(0, 0), (2, 2)]
     else:
@@ -853,8 +872,11 @@ def main():
     ]
     cases = enumerate_cases(a.tier)
     states, transitions, traces = set(), 0, 0
+    units = {}
+    for c in cases:      # sharding unit = (system, set, mode, block length): the memo of fresh block runs stays effective
+        units.setdefault((c[0], c[1], c[6], c[7], c[3]), len(units))
     for i, c in enumerate(cases):
-        if not a.mine(i):
+        if not a.mine(units[(c[0], c[1], c[6], c[7], c[3])]):
             continue
         fails, nruns, nframes, info = evaluate(c, R)
         R.eval(nruns)
@@ -872,11 +894,13 @@ def main():
                 R.count("runs_without_output(block longer than history)")
             if model.tie_items:
                 R.count("cases_with_bin_edge_ties")
-            if summary and (i // max(1, a.nshards)) % 97 == 3:
+            if summary and i % 197 == 3:
                 fn = sorted(summary)[0]
                 R.sample("%s -> processed %s, %d files, %s y=%s" % (case_str(c), processed, len(files), fn, summary[fn]))
         for k, t in fails:
             R.fail(k, t, case_str(c))
+    if LOADER_RETRIES[0]:
+        R.count("loader_retries(shared build relinked during the run)", LOADER_RETRIES[0])
     R.states, R.transitions, R.traces = len(states), transitions, traces
     R.write(a.out)
 
